@@ -334,4 +334,33 @@ example : ¬ ArgSafe { precision := 2 } (.str [0x68, 0xC3, 0xA9, 0x6C]) := fun h
 example : stdExtract [32, 9, 104, 105, 32, 120] = ([104, 105], [32, 120]) := by decide
 example : Sinks.insert .utf32 { width := 4, fill := 42, left := true } [0xC3, 0xA9, 0x61] = .ok [0xE9, 0x61, 42, 42] := by decide
 
+/-- "é{>3}|" with the argument "é": the hypotheses of `chunkSafe_of_ascii_pad_and_valid_args` hold -/
+example : chunkSafe [.append [0xC3, 0xA9], .appendChar 32 1, .append [0xC3, 0xA9], .append [124]] = true := by
+  have hrun : run (some [0xC3, 0xA9, 123, 62, 51, 125, 124]) [.str [0xC3, 0xA9]] =
+      .ok [.append [0xC3, 0xA9], .appendChar 32 1, .append [0xC3, 0xA9], .append [124]] := by decide +kernel
+  refine chunkSafe_of_ascii_pad_and_valid_args _ _ _ hrun (by decide) ?_
+  intro p spec p' h
+  have hp : p = 2 := by
+    unfold parseFormat at h
+    by_cases h7 : p < 7
+    · have : p = 0 ∨ p = 1 ∨ p = 2 ∨ p = 3 ∨ p = 4 ∨ p = 5 ∨ p = 6 := by omega
+      rcases this with rfl | rfl | rfl | rfl | rfl | rfl | rfl <;> first | rfl | (simp [rd] at h)
+    · have : rd [0xC3, 0xA9, 123, 62, 51, 125, 124] p = none ∨ rd [0xC3, 0xA9, 123, 62, 51, 125, 124] p = some 0 := by
+        unfold rd
+        by_cases q7 : p = 7
+        · subst q7; right; rfl
+        · left
+          have a : ¬ (p < 7) := h7
+          have b : ¬ (p = 7) := q7
+          simp [a, b]
+      rcases this with q | q <;> simp [q] at h
+  subst hp
+  have : parseFormat [0xC3, 0xA9, 123, 62, 51, 125, 124] 2 = .ok ({ alignment := .right, minimumLength := 3 }, 6) := by decide +kernel
+  rw [this] at h
+  injection h with h; injection h with h1 h2; subst h1
+  refine ⟨by decide, ?_⟩
+  intro a ha
+  simp at ha; subst ha
+  exact valid_of_validate _ (by decide)
+
 end StVerif.Props.C17
